@@ -959,3 +959,48 @@ def eval_pipeline(repo, run, rule):
         run.violation(rule, fi, 'compile / exec / eval pipeline', '; '.join(sorted(probs)[:3]))
     else:
         run.ok(rule, fi, 'compile(exec) + compile(eval) -> patched -> exec then eval in one namespace; eval\'s value returned (%d paths)' % len(paths))
+
+
+def include_init(repo, run, rule):
+    """IncludeNode(filenames): one name or a sequence of names (a str is one name); every name must be a str; names are stored
+    in the order given (home directory expanded)"""
+    fi = repo.func('IncludeNode.__init__')
+    bad = []
+    for arg, want in (('a.yaml', ['a.yaml']), (['a.yaml', 'b.yaml'], ['a.yaml', 'b.yaml']), (('b.yaml', 'a.yaml'), ['b.yaml', 'a.yaml']), ([], []), (5, 'ValueError'), (['a.yaml', 7], 'ValueError')):
+        ev = _fde(repo, stubs={'__init__'}, stub=lambda name, recv, a, k: None)
+        ex = lambda x: x      # noqa: E731
+        ex._fde_ok = True
+        ev.extcalls['os.path.expanduser'] = ex
+        me = Obj('inc', 'IncludeNode')
+        try:
+            r = ev.call(fi, me, arg)
+        except Unsupported as e:
+            raise AnalysisError('IncludeNode.__init__: finite-domain evaluator refused: %s' % e)
+        if want == 'ValueError':
+            if r.raised != 'ValueError':
+                bad.append('IncludeNode(%r): %s (expected ValueError)' % (arg, r.raised or 'accepted, names %r' % (me.f.get('filenames'),)))
+        elif r.raised or me.f.get('filenames') != want:
+            bad.append('IncludeNode(%r): %s, expected names %r' % (arg, 'raises %s' % r.raised if r.raised else 'names %r' % (me.f.get('filenames'),), want))
+    if bad:
+        run.violation(rule, fi, 'IncludeNode.__init__', '; '.join(bad[:3]))
+    else:
+        run.ok(rule, fi, 'IncludeNode(filenames) evaluated on 6 argument shapes', 'a str is one name, a sequence is the names in order, non-str names rejected')
+
+
+def stream_init(repo, run, rule):
+    """StreamNode(builder): the carrier is a list of the sub-builder's stages and remembers the builder"""
+    fi = repo.func('StreamNode.__init__')
+    got = []
+    ev = _fde(repo, stubs={'__init__'}, stub=lambda name, recv, a, k: got.append((list(a), dict(k))))
+    stages = [Obj('s1', 'ConfigDict'), Obj('s2', 'ConfigDict')]
+    b = Obj('sub', 'SubBuilder', stages=stages)
+    me = Obj('stream', 'StreamNode')
+    try:
+        r = ev.call(fi, me, b)
+    except Unsupported as e:
+        raise AnalysisError('StreamNode.__init__: finite-domain evaluator refused: %s' % e)
+    if r.raised or len(got) != 1 or not got[0][0] or got[0][0][0] is not stages or me.f.get('builder') is not b:
+        run.violation(rule, fi, 'StreamNode.__init__', 'the carrier is not constructed from the sub-builder\'s stages / does not keep the builder (base constructor calls: %d, builder kept: %s%s)' % (
+            len(got), me.f.get('builder') is b, ', raises %s' % r.raised if r.raised else ''))
+    else:
+        run.ok(rule, fi, 'StreamNode(builder): list of builder.stages; builder kept')
